@@ -56,6 +56,8 @@ type Event struct {
 	CSigner int       `json:"csigner,omitempty"`
 	Force   bool      `json:"force,omitempty"` // the commit does not descend from the ref's previous target
 	Base    string    `json:"base,omitempty"`  // push: parent is the current commit of this other ref (branching off)
+	FF      string    `json:"ff,omitempty"`    // push: the entry's target is the current commit of this other ref (fast-forward), no new commit
+	Merge   string    `json:"merge,omitempty"` // push: the new commit has a second parent, the current commit of this other ref
 	Items   []AttItem `json:"items,omitempty"`
 	Targets []int     `json:"targets,omitempty"` // annotate: indices of earlier events
 	Skip    bool      `json:"skip,omitempty"`
@@ -111,16 +113,68 @@ func (b *Built) TreeFor(i int) (githash.Hash, error) {
 	if id, ok := b.TreeIDs[i]; ok {
 		return mustHash(id), nil
 	}
-	blob, err := b.Store.WriteBlob([]byte(fmt.Sprintf("content-%d\n", i)))
-	if err != nil {
-		return nil, err
+	var entries []gitstore.TreeEntry
+	add := func(p, content string) error {
+		blob, err := b.Store.WriteBlob([]byte(content))
+		if err != nil {
+			return err
+		}
+		entries = append(entries, gitstore.TreeEntry{Path: p, ID: blob})
+		return nil
 	}
-	tree, err := b.Store.WriteTree([]gitstore.TreeEntry{{Path: "f", ID: blob}})
+	if i < 100 {
+		if err := add("f", fmt.Sprintf("content-%d\n", i)); err != nil {
+			return nil, err
+		}
+	} else {
+		// trees 100+a+5b: "f" constant, src/a in version a (absent if 0), docs/x in version b
+		a, d := (i-100)%5, ((i-100)/5)%5
+		if err := add("f", "base\n"); err != nil {
+			return nil, err
+		}
+		if a > 0 {
+			if err := add("src/a", fmt.Sprintf("src-a-%d\n", a)); err != nil {
+				return nil, err
+			}
+		}
+		if d > 0 {
+			if err := add("docs/x", fmt.Sprintf("docs-x-%d\n", d)); err != nil {
+				return nil, err
+			}
+		}
+	}
+	tree, err := b.Store.WriteTree(entries)
 	if err != nil {
 		return nil, err
 	}
 	b.TreeIDs[i] = tree.String()
 	return tree, nil
+}
+
+// Fork returns an independent copy of the build on a snapshot of a MemStore.
+func (b *Built) Fork() *Built {
+	ms, ok := b.Store.(*MemStore)
+	if !ok {
+		panic("Fork needs a MemStore")
+	}
+	c := &Built{Store: ms.Snapshot(), Entry: append([]string{}, b.Entry...), Commit: append([]string{}, b.Commit...), TreeIDs: map[int]string{}, last: map[string]string{}}
+	for k, v := range b.TreeIDs {
+		c.TreeIDs[k] = v
+	}
+	for k, v := range b.last {
+		c.last[k] = v
+	}
+	c.attState = append([]AttItem{}, b.attState...)
+	return c
+}
+
+// Extend grows the per-event slices so that events appended to the world after
+// the build started can be applied.
+func (b *Built) Extend(n int) {
+	for len(b.Entry) < n {
+		b.Entry = append(b.Entry, "")
+		b.Commit = append(b.Commit, "")
+	}
 }
 
 func (b *Built) changeIDs(c Change) (ref, from, to string, err error) {
@@ -296,14 +350,29 @@ func (b *Built) Apply(w *World, i int, e Event, lastCommit map[string]string) er
 				parents = []githash.Hash{mustHash(prev)}
 			}
 		}
+		if e.Merge != "" {
+			if other, ok := lastCommit[e.Merge]; ok {
+				parents = append(parents, mustHash(other))
+			}
+		}
 		var csigner *TestKey
 		if e.CSigner > 0 {
 			csigner = Key(e.CSigner - 1)
 		}
 		// the message makes every commit distinct even when trees repeat
-		commit, cerr := st.RawCommit(tree, parents, fmt.Sprintf("commit for event %d\n", i), csigner)
-		if cerr != nil {
-			return cerr
+		var commit githash.Hash
+		var cerr error
+		if e.FF != "" {
+			other, ok := lastCommit[e.FF]
+			if !ok {
+				return fmt.Errorf("fast-forward to %s which has no commit", e.FF)
+			}
+			commit = mustHash(other)
+		} else {
+			commit, cerr = st.RawCommit(tree, parents, fmt.Sprintf("commit for event %d\n", i), csigner)
+			if cerr != nil {
+				return cerr
+			}
 		}
 		if err = st.SetReference(e.Ref, commit); err != nil {
 			return err
@@ -690,18 +759,59 @@ type EntryVerdict struct {
 	Protected   bool
 }
 
-// isAncestor: does event a's commit descend from (or equal) event b's commit?
+// commitEvent returns the event that created the commit event i points at (a
+// fast-forward push re-uses the commit of another ref).
+func (m *Model) commitEvent(i int) int {
+	for guard := 0; guard < len(m.W.Events)+1; guard++ {
+		e := m.W.Events[i]
+		if e.FF == "" {
+			return i
+		}
+		j := m.prevForRef(e.FF, i)
+		if j < 0 {
+			return i
+		}
+		i = j
+	}
+	return i
+}
+
+func (m *Model) parentEvents(i int) []int {
+	e := m.W.Events[i]
+	var ps []int
+	if e.Base != "" {
+		if j := m.prevForRef(e.Base, i); j >= 0 {
+			ps = append(ps, m.commitEvent(j))
+		}
+	} else if !e.Force {
+		if j := m.prevForRef(e.Ref, i); j >= 0 {
+			ps = append(ps, m.commitEvent(j))
+		}
+	}
+	if e.Merge != "" {
+		if j := m.prevForRef(e.Merge, i); j >= 0 {
+			ps = append(ps, m.commitEvent(j))
+		}
+	}
+	return ps
+}
+
+// descends: does event a's commit descend from (or equal) event b's commit?
 func (m *Model) descends(a, b int) bool {
-	cur := a
-	for cur >= 0 {
-		if cur == b {
+	target := m.commitEvent(b)
+	seen := map[int]bool{}
+	stack := []int{m.commitEvent(a)}
+	for len(stack) > 0 {
+		cur := stack[len(stack)-1]
+		stack = stack[:len(stack)-1]
+		if cur == target {
 			return true
 		}
-		e := m.W.Events[cur]
-		if e.Force {
-			return false
+		if seen[cur] {
+			continue
 		}
-		cur = m.prevForRef(e.Ref, cur)
+		seen[cur] = true
+		stack = append(stack, m.parentEvents(cur)...)
 	}
 	return false
 }
